@@ -464,6 +464,12 @@ func (cc *connectStreamingClientConn) Receive(msg any) error {
 	// converting the bytes to a message, an error reading from the network, or
 	// just an EOF. We're going to return it to the user, but we also want to
 	// setResponseError so Send errors out.
+	if errors.Is(err, io.EOF) && !errors.Is(err, errSpecialEnvelope) {
+		// The response body ended without an end-of-stream message, so the
+		// response is incomplete. Users must not mistake this for a clean end of
+		// the stream.
+		err = errorf(CodeInternal, "protocol error: no end-of-stream message: %w", io.ErrUnexpectedEOF)
+	}
 	cc.duplexCall.SetError(err)
 	return err
 }
